@@ -40,7 +40,7 @@ def conclude(agg):
         r.append(f'primitive x input-combination hit matrix incomplete: {c.get("allprims_combos", 0)} of {N_COMBOS}')
     if len(agg['sets'].get('prims', ())) < 33:
         r.append(f'only {len(agg["sets"].get("prims", ()))} of 33 primitives occurred in random circuits')
-    for k in ('lane_checks', 'internal_line_checks', 'cycle_checks', 'padding_cases', 'cases/c_reuse', 'cases/strip_forks', 'cases/style_b', 'corpus_circuits'):
+    for k in ('lane_checks', 'internal_line_checks', 'cycle_checks', 'padding_cases', 'cases/c_reuse', 'cases/strip_forks', 'cases/style_b', 'corpus_circuits', 'callback_path_cases'):
         if c.get(k, 0) == 0:
             r.append(f'monitor counter {k} is zero')
     return r
@@ -49,7 +49,7 @@ def conclude(agg):
 def gen_case(rng, spec, idx):
     if idx == 0:
         net = G.all_prims_net(rng.choice(['v', 'b']))
-        return {'net': net, 'c_reuse': False, 'strip_forks': False, 'sims': 16, 'stim': 'exh', 'stim_seed': 0, 'cycles': 0, 'allprims': True}
+        return {'net': net, 'c_reuse': False, 'strip_forks': False, 'sims': 16, 'stim': 'exh', 'stim_seed': 0, 'cycles': 0, 'allprims': True, 'cbpath': True}
     feats = [f for f in FEATS if rng.random() < 0.3]
     big = spec.get('max_gates', 60)
     net = G.gen_net(rng, feats=feats, max_gates=big)
@@ -58,7 +58,7 @@ def gen_case(rng, spec, idx):
     sims = (1 << nsrc) if exh else rng.choice([1, 2, 3, 7, 8, 9, 15, 16, 17, 31, 33, 64, 65, 67, rng.randint(1, 67)])
     return {'net': net, 'c_reuse': rng.random() < 0.4, 'strip_forks': rng.random() < 0.4, 'sims': sims,
             'stim': 'exh' if exh else 'rand', 'stim_seed': rng.randrange(1 << 30),
-            'cycles': rng.choice([0, 0, 1, 2, 3, 5]) if net['ffs'] else 0, 'feats': feats}
+            'cycles': rng.choice([0, 0, 1, 2, 3, 5]) if net['ffs'] else 0, 'feats': feats, 'cbpath': rng.random() < 0.3}
 
 
 def stimulus(case):
@@ -143,6 +143,22 @@ def check_case(case, ctx):
                 if (got ^ val[sig]) & mask:
                     ctx.violation('internal-line', f'line {li} carrying {sig}: lanes {diff_lanes(got, val[sig], n)} differ (got {got & mask:#x}, expected {val[sig]:#x}); '
                                   f'strip={case["strip_forks"]}; {G.net_text(net)[:600]}', case)
+                    break
+        if case.get('cbpath'):
+            # the second copy of the 2-valued evaluation loop (used when a callback is passed) must compute the same function
+            simc = LogicSim(b.c, sims=n, m=2, c_reuse=case['c_reuse'], strip_forks=case['strip_forks'])
+            load(simc, b, assign, n, garbage)
+            simc.s_to_c()
+            simc.c_prop(inject_cb=lambda line, values: None)
+            simc.c_to_s()
+            ctx.count('callback_path_cases')
+            for row, (kind, name) in enumerate(b.s_order):
+                if kind == 'in':
+                    continue
+                got = row_to_int(simc.s[1, row, 0])
+                if (got ^ exp[(kind, name)]) & mask:
+                    ctx.violation('captured-value', f'{kind} {name} (propagation with a no-op inject_cb): lanes {diff_lanes(got, exp[(kind, name)], n)} differ from '
+                                  f'gate-by-gate evaluation; {G.net_text(net)[:600]}', case)
                     break
         if case.get('allprims'):
             # 16 lanes = all combinations of the 4 shared inputs: every primitive saw every input combination
